@@ -962,6 +962,28 @@ fn main() {
             }
             0
         }
+        Some("inventory") => {
+            // vrun inventory: the stage table of DESIGN.md section 2a
+            println!("| check | stage | profile | quick cases | thorough cases |\n|---|---|---|---|---|");
+            let fmt = |n: u64| {
+                let s = n.to_string();
+                let mut o = String::new();
+                for (i, c) in s.chars().enumerate() {
+                    if i > 0 && (s.len() - i) % 3 == 0 {
+                        o.push(',');
+                    }
+                    o.push(c);
+                }
+                o
+            };
+            for n in 1..=20 {
+                let id = format!("C{n:02}");
+                for st in stages(&id) {
+                    println!("| {id} | {} | {:?} | {} | {} |", st.prop.stage(), st.profile, fmt(st.quick_cases), fmt(st.thorough_cases));
+                }
+            }
+            0
+        }
         Some("evalone") => cmd_evalone(&args[2], &args[3], &args[4]),
         Some("show") => cmd_show(&args[2], args.get(3).and_then(|s| s.parse().ok()).unwrap_or(3)),
         Some("stats") => cmd_stats(&args[2], args.get(3).and_then(|s| s.parse().ok()).unwrap_or(2000)),
